@@ -13,7 +13,7 @@ import random
 
 import numpy as np
 
-from .. import tlc, gen
+from .. import tlc, gen, realdata
 from ..common import Evidence, Reporter, import_mir_eval
 from ..relations import RelLog, call
 
@@ -167,6 +167,30 @@ def run(tier, seed):
             return [["L%d_%s" % (9 - i, str(x).lower()) for x in labs] for i, labs in enumerate(lab_hier)]
         log.add("close", "hierarchy.lmeasure", call(h.lmeasure, hri, hrl, hei, hel, frame_size=0.25), call(h.lmeasure, hri, hb(hrl), hei, hb(hel), frame_size=0.25),
                 {"what": "relabel", "ref_labels": hrl, "est_labels": hel, "ref": [x.tolist() for x in hri], "est": [x.tolist() for x in hei]})
+    # the repository's own fixtures: a label bijection on real segmentations, the notes of real transcriptions in another order
+    n_real = 0
+    for nm, (ri, rl, ei, el) in realdata.pairs(me, "segment", None if thorough else 3):
+        def bij(labs, tag):
+            names = sorted(set(str(x).lower() for x in labs))
+            perm = names[:]
+            rng.shuffle(perm)
+            mp_ = {a_: "%s%d_%s" % (tag, k_, b_[::-1]) for k_, (a_, b_) in enumerate(zip(names, perm))}
+            return [mp_[str(x).lower()] for x in labs]
+        lab_only = lambda d: [float(v) for k2, v in d.items() if not (k2.startswith(("Precision@", "Recall@", "F-measure@")) or "deviation" in k2)]  # noqa
+        a2 = call(lambda: lab_only(s.evaluate(ri, rl, ei, el)))
+        b2 = call(lambda: lab_only(s.evaluate(ri, bij(rl, "r"), ei, bij(el, "e"))))
+        n_real += 1
+        log.add("same", "segment.evaluate[labelling]", a2, b2, {"what": "relabel", "fixture": "segment/" + nm})
+    for nm, (ri, rp, ei, ep) in realdata.pairs(me, "transcription", None if thorough else 3):
+        pr, pe = list(range(len(ri))), list(range(len(ei)))
+        rng.shuffle(pr)
+        rng.shuffle(pe)
+        f3 = lambda *a_, **k_: tr.precision_recall_f1_overlap(*a_, **k_)[:3]  # noqa
+        for kw in ({}, {"offset_ratio": None}):
+            n_real += 1
+            log.add("same", "transcription.precision_recall_f1_overlap", call(f3, ri, rp, ei, ep, **kw), call(f3, ri[pr], rp[pr], ei[pe], ep[pe], **kw),
+                    {"what": "permute notes", "fixture": "transcription/" + nm, "kw": str(kw)})
+    ev.cov["repository_fixture_transformations"] = n_real
     bad, st = log.judge()
     ev.tlc("Trace_Rel", st, "same / close verdicts on recorded outcome pairs")
     ev.cov["traces_validated_against_impl"] = len(log.events)
